@@ -283,7 +283,13 @@ def run(ctx):
             src = st.value
     if src is None:
         raise AnalysisError("R3.4: hash input expression not found")
-    order = _hash_input_order(src, p_name, p_fields)
+    from .c02 import _accumulated_text
+
+    first_target = None
+    for st in walk_no_nested(ch):
+        if isinstance(st, ast.Assign) and st.value is src and isinstance(st.targets[0], ast.Name):
+            first_target = st.targets[0]
+    order = _hash_input_order(_accumulated_text(ch, first_target) if first_target is not None else src, p_name, p_fields, ch)
     # alphabets: field names [A-Za-z0-9_], type names [A-Za-z0-9_.] + "[]"
     seps_ok = True
     var_parts = [o for o in order if o in ("name", "field.name", "field.type")]
